@@ -469,8 +469,15 @@ theorem aggUpdateRow_of_rejected {O : Oracles} {q : AggStmt} {env : Env} (h : pa
     simp only [hf] at h
     cases he : eval O env f with
     | ok v =>
-      simp only [he, okOf, Option.map_some, Option.some.injEq] at h
-      simp [hf, he, bind, Outcome.bind, pure, h]
+      simp only [he, okOf, Option.bind_some] at h
+      cases hc : condHolds v with
+      | ok b =>
+        simp only [hc, Option.some.injEq] at h
+        subst h
+        simp [he, bind, Outcome.bind, pure, hc]
+      | error k => simp [hc] at h
+      | panic k => simp [hc] at h
+      | oracleMissing k => simp [hc] at h
     | error k => simp [he, okOf] at h
     | panic k => simp [he, okOf] at h
     | oracleMissing k => simp [he, okOf] at h
